@@ -1,6 +1,6 @@
 (* C09 — Rules hold on every reported row and fire on their schedule. *)
 From Coq Require Import ZArith Reals List Bool Arith Sorted.
-From BS Require Import Base.Arith Model.Term Model.Propensity Model.Interface Model.Rules Model.Random Model.SSA Proofs.RuleProofs Proofs.RuleCount Proofs.RuleRows Proofs.VolumeRuleCount Proofs.LineageRuleCount Proofs.DelayRuleCount Proofs.DvRuleCount Model.Queue Model.Splitters Model.Lineage.
+From BS Require Import Base.Arith Model.Term Model.Propensity Model.Interface Model.Rules Model.Random Model.SSA Proofs.RuleProofs Proofs.RuleCount Proofs.RuleRows Proofs.VolumeRuleCount Proofs.LineageRuleCount Proofs.DelayRuleCount Proofs.DvRuleCount Proofs.RuleSchedule Model.Queue Model.Splitters Model.Lineage.
 Import ListNotations.
 
 (* Expression evaluation depends only on the species the expression reads (any arithmetic). *)
@@ -67,6 +67,22 @@ Theorem C09_dt_rules_once_per_row :
        forall m stm, (m <= n)%nat -> ssa_run s u m (ssa_init s ts pos) = Done stm ->
          apps s u m (ssa_init s ts pos) = (length (ss_rows stm) + (if ss_rule_step stm then 0 else 1))%nat).
 Proof. exact dt_rules_once_per_row. Qed.
+
+(* Scheduled rules over whole runs of the SSA loop (reals; strictly increasing grid not before t0; uniforms in (0,1]; non-negative
+   propensities; no firing time equal to a grid time): the loop STOPS at every requested time.  At every iteration boundary the rows
+   recorded so far are those of the first grid times, and whenever rule_step is set after something was recorded the clock stands exactly
+   at the time of the last recorded row -- so the next iteration starts with the clock EQUAL to that requested time, which is when a rule
+   scheduled for it fires (C09_scheduled_rule_fires_at), after that row was recorded and before any later one is.  (The volume-aware
+   loops do not stop at requested times: known finding F24.) *)
+Theorem C09_ssa_stops_at_requested_times :
+  forall (s : sim R) (u : nat -> R), (forall n, 0 < u n <= 1)%R ->
+  (forall x p V t, 0 <= array_sum ArithR (stoch_props ArithR s Stoch x p V t))%R ->
+  forall ts pos n, StronglySorted Rlt ts -> Forall (fun t => sm_t0 s <= t)%R ts ->
+  notie_run s u n (ssa_init s ts pos) ->
+  forall m stm, (m <= n)%nat -> ssa_run s u m (ssa_init s ts pos) = Done stm ->
+    ss_todo stm = skipn (length (ss_rows stm)) ts /\
+    (ss_rule_step stm = true -> ss_rows stm <> [] -> ss_time stm = nth (length (ss_rows stm) - 1) ts 0%R).
+Proof. exact ssa_stops_at_requested_times. Qed.
 
 (* The delay-capable and the volume-aware loops report only rule-applied states as well (any arithmetic, stream, fuel, grid,
    queue, volume model): every row is the species part of a rule pass -- volume rules reading the current volume -- taken
@@ -172,7 +188,7 @@ Theorem C09_lineage_dt_rules_next_iteration :
 Proof. exact lineage_dt_rules_next_iteration. Qed.
 
 (* Not mechanised (C09_partial): the counting statement for the deterministic post-pass, and the scheduled-rule
-   clause over whole runs -- decided by the stream replay and the harness oracle (counter, ODE and scheduled rules). *)
+   clause over whole runs of the loops other than the SSA loop -- decided by the stream replay and the harness oracle (counter, ODE and scheduled rules). *)
 
 Print Assumptions C09_eval_frame.
 Print Assumptions C09_assignment_fixpoint.
@@ -182,6 +198,7 @@ Print Assumptions C09_dt_rule_fires_iff_rule_step.
 Print Assumptions C09_repeat_rule_always_fires.
 Print Assumptions C09_scheduled_rule_fires_at.
 Print Assumptions C09_dt_rules_once_per_row.
+Print Assumptions C09_ssa_stops_at_requested_times.
 Print Assumptions C09_delay_rows_are_rule_applied.
 Print Assumptions C09_volume_rows_are_rule_applied.
 Print Assumptions C09_delay_dt_rules_once_per_row.
